@@ -295,6 +295,10 @@ def run(ctx):
     binary = H.build(ctx.work, "asan")
     scns = make_scenarios(ctx, ctx.n(2000, 60000), 200)
     run_monitored(ctx, binary, scns, monitor, tag="tbl")
+    # the same sequences with plain char unsigned (the ABI of the ARM / PowerPC / Xtensa ports) and size-optimised
+    uchar, osz = H.build_many(ctx.work, [dict(flavour="asan-uchar"), dict(flavour="plain-os")])
+    run_monitored(ctx, uchar, scns[:len(scns) // 2], monitor, tag="tbl-uchar")
+    run_monitored(ctx, osz, scns[len(scns) // 2:], monitor, tag="tbl-os")
     c = rep.counters
     for name in ("full-reject", "full-reject-while-all-complete", "refresh", "refresh-with-unchanged-sequence-number", "expiry-with-survivors", "clear", "remove", "allc=1/nonempty", "allc=0/nonempty", "allc=1/empty"):
         rep.need(name, c.get("reach:" + name, 0), 20)
